@@ -338,6 +338,16 @@ func ruleCheckedNarrowing(p *Program, r *Report) {
 					if !ok {
 						return false
 					}
+					// |f| < c with c within the integer range bounds both sides at once
+					if ac, isCall := bo.X.(*ssa.Call); isCall && (bo.Op == token.LSS || bo.Op == token.LEQ) {
+						if g := ac.Call.StaticCallee(); g != nil && g.String() == "math.Abs" && len(ac.Call.Args) == 1 && (ac.Call.Args[0] == cv.X || sameValue(ac.Call.Args[0], cv.X, 0)) {
+							if k, isK := bo.Y.(*ssa.Const); isK && k.Value != nil {
+								if f, _ := constant.Float64Val(constant.ToFloat(k.Value)); f <= 9.223372036854775807e18 {
+									lower, upper = true, true
+								}
+							}
+						}
+					}
 					_, cy := bo.Y.(*ssa.Const)
 					_, cx := bo.X.(*ssa.Const)
 					var v ssa.Value
